@@ -101,11 +101,13 @@ func parseEgressSocks5Request(data []byte) (*model.Request, error) {
 
 func (s *Server) rejectPrivateAndLoopbackIPAction(_ context.Context, in egress.Input, req *model.Request) egress.Action {
 	ip := req.DstAddr.IP
-	if len(ip) == 0 && req.DstAddr.FQDN != "" {
+	if len(ip) == 0 {
 		// If we do a DNS lookup, we leak the destination domain name to the DNS server.
 		// For user privacy, we only check some well-known local domain names.
-		domainName := req.DstAddr.FQDN
-		isWellKnownIPv4LocalDomainName := false
+		// Domain names are case insensitive, and an empty host name is dialed
+		// as the local machine.
+		domainName := asciiLower(req.DstAddr.FQDN)
+		isWellKnownIPv4LocalDomainName := domainName == ""
 		isWellKnownIPv6LocalDomainName := false
 		for _, d := range wellKnownIPv4LocalDomainNames {
 			if domainName == d {
@@ -128,10 +130,13 @@ func (s *Server) rejectPrivateAndLoopbackIPAction(_ context.Context, in egress.I
 				Action: appctlpb.EgressAction_DIRECT,
 			}
 		}
-	} else if len(ip) == 0 {
-		return egress.Action{
-			Action: appctlpb.EgressAction_DIRECT,
-		}
+	}
+
+	// Connecting to the unspecified address (0.0.0.0 or ::) reaches the local
+	// machine. In a UDP associate request it only means that the client does
+	// not know its own address (RFC 1928), and nothing is sent to it.
+	if ip.IsUnspecified() && req.Command == constant.Socks5ConnectCmd {
+		ip = net.ParseIP("127.0.0.1")
 	}
 
 	if !ip.IsPrivate() && !ip.IsLoopback() {
@@ -176,6 +181,17 @@ func (s *Server) rejectPrivateAndLoopbackIPAction(_ context.Context, in egress.I
 	return egress.Action{
 		Action: appctlpb.EgressAction_REJECT,
 	}
+}
+
+// asciiLower returns s with the ASCII upper case letters mapped to lower case.
+func asciiLower(s string) string {
+	b := []byte(s)
+	for i, c := range b {
+		if 'A' <= c && c <= 'Z' {
+			b[i] = c + 'a' - 'A'
+		}
+	}
+	return string(b)
 }
 
 func (s *Server) forwardToProxyAction(_ context.Context, req *model.Request) egress.Action {
